@@ -68,6 +68,17 @@ def cfg_text(c, export):
     return txt, defs
 
 
+def _copy_atomic(src, dst):
+    """checks of different properties may run side by side and share this directory: never expose a half-written copy"""
+    import os
+    txt = src.read_text()
+    if dst.exists() and dst.read_text() == txt:
+        return
+    tmp = dst.with_suffix(".tmp%d" % os.getpid())
+    tmp.write_text(txt)
+    os.replace(tmp, dst)
+
+
 def write_model(name, c, export):
     """TLC needs the structured constants as definitions: a wrapper module MC_<name> EXTENDS Dispatch."""
     txt, defs = cfg_text(c, export)
@@ -76,7 +87,7 @@ def write_model(name, c, export):
     d.mkdir(parents=True, exist_ok=True)
     (d / (mod + ".tla")).write_text(f"---- MODULE {mod} ----\nEXTENDS Dispatch\n{defs}====\n")
     for f in ("Dispatch.tla",):
-        (d / f).write_text((vlib.SPEC / f).read_text())
+        _copy_atomic(vlib.SPEC / f, d / f)
     cfg = vlib.write_cfg(d / (mod + ".cfg"), txt)
     return mod, cfg, d
 
